@@ -29,7 +29,7 @@ CONSTANTS
 
 Floor == 1000
 None == -1
-Seqs == 0..255
+Seqs == 0..3   \* the actions touch one sequence number per step and treat all alike (data independence): four stand for the 256
 
 CInit == /\ Static \in BOOLEAN
          /\ Initial \in 1..100000
